@@ -23,7 +23,7 @@ PROFILES = {
                   gen=[("sim_2w.cfg", ["a", "b"], 120, 260), ("sim_2c.cfg", ["a", "b"], 60, 260), ("sim_3w.cfg", ["a", "b", "c"], 40, 260)],
                   limit=150),
     "thorough": dict(design=[("ip_fixed_q.cfg", 120, True), ("ip_fixed_msg.cfg", 300, True), ("ip_fixed_t.cfg", 400, True),
-                             ("ip_fixed_live.cfg", 300, True), ("ip_pinned_q.cfg", 120, False)],
+                             ("ip_fixed_live.cfg", 300, True), ("ip_fixed_3.cfg", 400, True), ("ip_pinned_q.cfg", 120, False)],
                      gen=[("sim_2w.cfg", ["a", "b"], 1500, 260), ("sim_2c.cfg", ["a", "b"], 600, 260), ("sim_3w.cfg", ["a", "b", "c"], 900, 260)],
                      limit=2400),
 }
